@@ -58,6 +58,7 @@ type Witness struct {
 	Path     []int             `json:"path"`
 	Observed []string          `json:"observed"` // engine's Observe log evaluated under the model
 	Asserts  []string          `json:"asserts"`  // labels of assertions passed on this path
+	Failed   []string          `json:"failed"`   // labels of assertions that failed on this path for every input of the path
 	Reached  []string          `json:"reached"`
 }
 
@@ -85,6 +86,7 @@ type Explorer struct {
 	schedule   []int
 	observed   []obsEntry
 	pathAsserts []string
+	pathFailed  []string // labels that failed concretely on this path (the path goes on)
 	pathReached []string
 	steps      int64
 	fresh      bool
@@ -174,6 +176,7 @@ func (e *Explorer) beginPath(prefix []int) {
 	e.schedule = nil
 	e.observed = nil
 	e.pathAsserts = nil
+	e.pathFailed = nil
 	e.pathReached = nil
 	e.steps = 0
 	e.overflowObl = nil
@@ -535,6 +538,7 @@ func (e *Explorer) assert(label string, cond value) {
 		e.AssertsConcrete++
 		if !c {
 			e.recordViolation("assert", label, "", "concrete on path", nil)
+			e.pathFailed = append(e.pathFailed, label)
 		} else {
 			e.pathAsserts = append(e.pathAsserts, label)
 		}
@@ -543,6 +547,7 @@ func (e *Explorer) assert(label string, cond value) {
 			e.AssertsConcrete++
 			if !v {
 				e.recordViolation("assert", label, "", "", nil)
+				e.pathFailed = append(e.pathFailed, label)
 			} else {
 				e.pathAsserts = append(e.pathAsserts, label)
 			}
@@ -609,7 +614,7 @@ func (e *Explorer) witness() *Witness {
 		return nil
 	}
 	w := &Witness{Harness: e.harness, Scenario: e.scenario, Inputs: m, Schedule: append([]int{}, e.schedule...), Path: append([]int{}, e.prefix[:e.pos]...),
-		Asserts: e.pathAsserts, Reached: e.pathReached}
+		Asserts: e.pathAsserts, Failed: e.pathFailed, Reached: e.pathReached}
 	vi := 0
 	for i, o := range e.observed {
 		var s string
